@@ -9,6 +9,8 @@ from __future__ import annotations
 
 import contextlib
 import itertools
+import collections
+import fractions
 import random
 from collections import OrderedDict, defaultdict, deque
 
@@ -123,6 +125,9 @@ class StrSub(str):
         return f'StrSub({str(self)!r})'
 
 
+KeyPair = collections.namedtuple('KeyPair', ['a', 'b'])
+
+
 def _same_name_class(tag):
     """Two distinct classes with the SAME module and qualified name: ordered within a class, unorderable across."""
 
@@ -174,8 +179,9 @@ KEY_STYLES = (
     'tie_mixed',  # user keys that never order (no TypeError) + ints + strs
     'subclassed',  # ints, strs and instances of int / str subclasses: the fallback groups by the exact class name
     'samename',  # keys of two classes sharing one qualified name: the (type name, key) fallback compares them and fails
+    'comparable_mixed',  # several exact types that ARE mutually orderable (int + int subclass + Fraction + float, str + str subclass, tuple + namedtuple): plain sorted() order
 )
-TOTAL_STYLES = {'str', 'int', 'intstr', 'tuple', 'float', 'bytes', 'mixed4', 'okey', 'hkey', 'bool'}
+TOTAL_STYLES = {'str', 'int', 'intstr', 'tuple', 'float', 'bytes', 'mixed4', 'okey', 'hkey', 'bool', 'comparable_mixed'}
 LITERAL_STYLES = {'str', 'int', 'intstr', 'tuple', 'float', 'bytes', 'mixed4', 'bool'}
 
 
@@ -273,6 +279,19 @@ def gen_keys(rng: random.Random, n: int, style: str):
                 add(rng.choice(_WORDS))
             else:
                 add(StrSub(rng.choice(_WORDS) + 'S'))
+        elif style == 'comparable_mixed':
+            if not out:
+                family = rng.choice(['num', 'str', 'tuple'])
+            else:
+                family = 'num' if isinstance(out[0], (int, float, fractions.Fraction)) else 'str' if isinstance(out[0], str) else 'tuple'
+            v = rng.randrange(-20, 60)
+            if family == 'num':
+                add(rng.choice([v, IntSub(v), fractions.Fraction(2 * v + 1, 2), v + 0.25]))
+            elif family == 'str':
+                w = rng.choice(_WORDS) + str(rng.randrange(20))
+                add(rng.choice([w, StrSub(w)]))
+            else:
+                add(rng.choice([(v % 5, v % 3), KeyPair(v % 5, v % 3 + 10), (v % 5,)]))
         elif style == 'samename':
             r = rng.random()
             if r < 0.4:
